@@ -5,7 +5,8 @@ ID = "C14"
 AH = "paramiko.auth_handler.AuthHandler."
 TARGETS = [AH + "_parse_userauth_request", AH + "_send_auth_result", AH + "_get_session_blob",
            "paramiko.auth_handler.GssapiWithMicAuthHandler._parse_userauth_gssapi_mic"]
-REPLAY = {"*": "c14.replay_auth", "publickey_success_only_with_verified_signature": "c14.publickey_without_proof"}
+REPLAY = {"*": "c14.replay_auth", "publickey_success_only_with_verified_signature": "c14.publickey_without_proof",
+          "_parse_userauth_request": "c14.partial_publickey_is_not_success"}
 MAX_PATHS = 30000
 
 
